@@ -2,6 +2,8 @@ package main
 
 import (
 	"fmt"
+	"go/ast"
+	"os"
 	"go/token"
 	"go/types"
 	"sort"
@@ -848,6 +850,9 @@ func (fe *FnExec) doReturn(fr *frame, st *State, x *ssa.Return) {
 	if !fr.inlined && (fr.con == nil || !fr.con.Trusted) {
 		fe.errPropObligations(fr, st, x, rv)
 	}
+	if os.Getenv("GCV_FRAME") != "" {
+		fe.frameObligations(fr, st, x)
+	}
 	if fr.con == nil || fr.inlined || fr.con.Trusted {
 		return // a trusted contract is assumed by callers; only the safety obligations of its body are generated
 	}
@@ -860,6 +865,9 @@ func (fe *FnExec) doReturn(fr *frame, st *State, x *ssa.Return) {
 		fe.oblige(fr, fmt.Sprintf("post:%s@ret%d", en.Label, len(fr.rets)-1), en.Props, st.pc, g, x.Pos(), en.Src)
 		if len(fe.script.Obs) == nob+1 && !strings.HasPrefix(fe.script.Obs[nob].Note, "CANNOT BE EVALUATED") {
 			fe.script.Obs[nob].Clause = en.X
+		}
+		if len(fe.script.Obs) == nob+1 {
+			fe.script.Obs[nob].Success = successReturn(fr.fn, x)
 		}
 	}
 	for _, inv := range fr.con.CbInvs {
@@ -1059,4 +1067,129 @@ func (fe *FnExec) errPropAtBackEdge(fr *frame, li *loopInfo, st *State) {
 		fe.oblige(fr, fmt.Sprintf("errprop[%s]@%s", site, fe.loopName(li)), nil, tAnd(st.pc, pcCall), tEq(e.T, "0"), li.head.Instrs[0].Pos(),
 			"the loop does not go on to its next iteration after "+site+" reported an error")
 	}
+}
+
+// ---------------------------------------------------------------------------
+// Frame soundness (DESIGN.md §3.2): callers havoc exactly what a callee's `modifies` names, so a callee must not
+// change anything else that existed before the call.  At every return of a function under contract, for every field
+// map / ghost map whose final value differs from the entry value:
+//     forall o. o existed at entry && o is not a declared target of that map  ==>  final[o] == entry[o]
+// Objects allocated during the call are the function's own; the scratch ghosts of contracts (mark, mark2) are exempt.
+
+type modTarget struct {
+	prefix string
+	key    Term
+	whole  bool
+}
+
+func (fe *FnExec) modTargets(ctx *EvalCtx, x *CExpr) []modTarget {
+	e := x.E
+	if p, ok := e.(*ast.ParenExpr); ok {
+		e = p.X
+	}
+	switch l := e.(type) {
+	case *ast.CallExpr:
+		if id, ok := l.Fun.(*ast.Ident); ok {
+			if g, ok := fe.eng.voc.Ghost[id.Name]; ok {
+				return []modTarget{{prefix: "ghost." + g.Name, key: ctx.ghostKey(g, l.Args)}}
+			}
+			if id.Name == "all" && len(l.Args) == 1 {
+				if gi, ok := l.Args[0].(*ast.Ident); ok {
+					return []modTarget{{prefix: "ghost." + gi.Name, whole: true}}
+				}
+			}
+		}
+	case *ast.StarExpr:
+		v := ctx.eval(l.X)
+		if rv, ok := v.(RefV); ok {
+			if t, ok := fe.ifaceType[rv.T]; ok {
+				v = PtrV{Base: rv.T, Prefix: typeName(t), Pointee: t}
+			}
+		}
+		if p, ok := v.(PtrV); ok && p.Cell == nil {
+			return []modTarget{{prefix: p.Prefix, key: p.Base}}
+		}
+	case *ast.SelectorExpr:
+		ctx2 := *ctx
+		ctx2.wantAddr = true
+		base := ctx2.eval(l.X)
+		if b, ok := base.(PtrV); ok && b.Cell == nil {
+			if stt, ok := b.Pointee.Underlying().(*types.Struct); ok {
+				_, path := findField(stt, l.Sel.Name)
+				if path != nil {
+					prefix := b.Prefix
+					cur := stt
+					for _, fi := range path {
+						f := cur.Field(fi)
+						prefix += "." + f.Name()
+						if s2, ok := f.Type().Underlying().(*types.Struct); ok {
+							cur = s2
+						}
+					}
+					return []modTarget{{prefix: prefix, key: b.Base}}
+				}
+			}
+		}
+	}
+	return nil
+}
+
+func (fe *FnExec) frameObligations(fr *frame, st *State, x *ssa.Return) {
+	if fr != fe.top || fe.quiet || fr.inlined || fr.con == nil || fr.con.Trusted {
+		return
+	}
+	ctx := fe.ctxFor(fr, fr.entry)
+	saved, nw := fe.clauseErr, len(fe.warns)
+	var ts []modTarget
+	for _, m := range fr.con.Modifies {
+		ts = append(ts, fe.modTargets(ctx, m)...)
+	}
+	fe.clauseErr, fe.warns = saved, fe.warns[:nw]
+	for _, h := range sortedKeys(st.heap) {
+		t := st.heap[h]
+		e := Term(sym(h + "@0"))
+		if t == e || h == "ghost.mark" || h == "ghost.mark2" {
+			continue
+		}
+		whole := false
+		var conds []Term
+		for _, tg := range ts {
+			if h == tg.prefix || strings.HasPrefix(h, tg.prefix+".") {
+				if tg.whole {
+					whole = true
+				} else {
+					conds = append(conds, tNot(tEq("o", tg.key)))
+				}
+			}
+		}
+		if whole {
+			continue
+		}
+		objKeyed := true
+		if strings.HasPrefix(h, "ghost.") {
+			if g, ok := fe.eng.voc.Ghost[strings.TrimPrefix(h, "ghost.")]; ok && g.Key != "" {
+				objKeyed = false
+			}
+		}
+		if objKeyed {
+			conds = append(conds, sx("<", "0", "o"), sx("<=", "o", "HW"))
+		}
+		goal := Term(fmt.Sprintf("(forall ((o Int)) (=> %s (= (select %s o) (select %s o))))", tAnd(conds...), t, e))
+		fe.oblige(fr, fmt.Sprintf("frame:modifies[%s]@ret%d", h, len(fr.rets)-1), nil, st.pc, goal, x.Pos(),
+			"nothing that existed at entry is changed in "+h+" except what `modifies` names")
+	}
+}
+
+// successReturn: the return statement hands back the constant nil as its error (or the function has no error result).
+func successReturn(fn *ssa.Function, x *ssa.Return) bool {
+	sig := fn.Signature
+	n := sig.Results().Len()
+	if n == 0 || !types.Identical(sig.Results().At(n-1).Type(), types.Universe.Lookup("error").Type()) {
+		return true
+	}
+	if n != len(x.Results) {
+		return false
+	}
+	c, ok := x.Results[n-1].(*ssa.Const)
+	return ok && c.Value == nil
 }
